@@ -187,7 +187,7 @@ func (s Str) show() string {
 	}
 	var sb strings.Builder
 	sb.WriteString("\"")
-	for i := range s.S {
+	for i := 0; i < len(s.S); i++ {
 		if s.Sym[i] != nil {
 			sb.WriteString("<" + s.Sym[i].str + ">")
 		} else {
